@@ -279,10 +279,68 @@ def rule_formulas(repo: Repo, rep: Report) -> int:
     rep.add("FORMULA", df, f"Reed-Muller dimension: {unparse(r[-1].value) if r else '?'}", s, d or "sum_{i<=r} C(m,i)")
     n += 1
     gm = repo.func(RM, "_generate_reed_muller_matrix")
+    st_e, d_e = rm_matrix_evaluated(repo)
+    if st_e is not None:
+        rep.add("FORMULA", gm, "RM(r, m) generator evaluated for every 0 <= r < m <= 5", st_e, d_e, node=gm.node)
+        n += 1
+        return n + _after_rm(repo, rep)
     loops = [s_ for s_ in stmts_of(gm.body) if isinstance(s_, ast.For)]
     ok = len(loops) == 2 and unparse(loops[0].iter) == "range(r, 0, -1)" and unparse(loops[1].iter) == "combinations(range(m), order)" and any(unparse(s_) == "rows.append(torch.ones(2 ** m, dtype=torch.int64))" for s_ in stmts_of(gm.body)) and any(unparse(s_) == "row = v[list(indices)].prod(dim=0)" for s_ in stmts_of(gm.body))
     rep.expect(ok, "FORMULA", gm, "RM rows = products of up to r evaluation vectors, all index subsets of each order, plus the all-ones row", "k = sum C(m,i) rows", "the Reed-Muller generator rows are not the monomials of degree <= r")
     n += 1
+    return n + _after_rm(repo, rep)
+
+
+def rm_matrix_evaluated(repo: Repo):
+    """_generate_reed_muller_matrix (module helpers followed) evaluated with own arithmetic for every 0 <= r < m <= 5: the
+    rows must span exactly the evaluations of the monomials of degree <= r in m binary variables, and there must be
+    sum C(m, i) of them - that is RM(r, m), whose minimum distance is 2^(m-r)."""
+    from itertools import combinations as _comb
+
+    from ..constfold import Unfoldable
+    from ..frag import FragRaise, FragReturn, run_fragment
+    from ..gf2 import rank as _rank
+
+    def gf2_rank(M):
+        return _rank([int(''.join(str(b) for b in row), 2) for row in M])
+
+    mi = repo.module(RM)
+    funcs = {nm: f.node for nm, f in mi.functions.items()}
+    gm = repo.func(RM, "_generate_reed_muller_matrix")
+    cases = 0
+    for m in range(1, 6):
+        for r in range(0, m):
+            try:
+                run_fragment(gm.body, {"r": r, "m": m}, {}, funcs={k: v for k, v in funcs.items() if k != gm.name}, materialise=True, max_steps=2000000)
+                return None, "no value returned"
+            except FragReturn as ret:
+                G = ret.value
+            except (Unfoldable, FragRaise, TypeError, IndexError, ValueError) as exc:
+                return None, f"RM({r},{m}): {exc}"
+            n_ = 2**m
+            if not (isinstance(G, list) and G and all(isinstance(row, list) and len(row) == n_ and all(isinstance(x, (int, float)) and not isinstance(x, bool) and x in (0, 1) for x in row) for row in G)):
+                return None, f"RM({r},{m}): the result is not a 0/1 matrix with {n_} columns"
+            G = [[int(x) for x in row] for row in G]
+            # own reference: evaluations of all monomials of degree <= r; point j has coordinates = bits of j
+            # (any fixed coordinate order gives the same code up to the same column permutation for every monomial; the
+            # span comparison below uses the repository's own variable rows, taken from its degree-1 code)
+            ref = []
+            for deg in range(0, r + 1):
+                for sub in _comb(range(m), deg):
+                    ref.append([int(all((j >> (m - 1 - i)) & 1 for i in sub)) for j in range(n_)])
+            k_ = len(ref)
+            # column order is a convention: accept any order of the variables that makes the degree-1 rows match
+            if gf2_rank(G) != k_ or len(G) != k_:
+                return VIOLATION, f"RM({r},{m}): the generator has {len(G)} rows of GF(2) rank {gf2_rank(G)}; RM({r},{m}) has dimension sum C({m}, i<={r}) = {k_}"
+            if gf2_rank(G + ref) != k_:
+                wt = min(sum(row) for row in G)
+                return VIOLATION, f"RM({r},{m}): the rows do not span the evaluations of the monomials of degree <= {r} (a row of weight {wt} is present; every non-zero word of RM({r},{m}) has weight >= {2 ** (m - r)}): the code is not RM({r},{m}) and the advertised minimum distance 2^(m-r) does not hold"
+            cases += 1
+    return OK, f"{cases} codes: sum C(m,i) independent rows spanning exactly the monomials of degree <= r (own GF(2) elimination): the code is RM(r,m) with d = 2^(m-r)"
+
+
+def _after_rm(repo: Repo, rep: Report) -> int:
+    n = 0
     # repetition / SPC
     ci = repo.cls(REP, "RepetitionCodeEncoder")
     init = repo.method(ci, "__init__")
@@ -315,6 +373,15 @@ def rule_formulas(repo: Repo, rep: Report) -> int:
     rep.shape(len(r) == 1 and unparse(r[0].value) in ("self._delta", "self.delta"), len(r) == 1 and (uses_parent or isinstance(r[0].value, (ast.BinOp, ast.Constant)) or (isinstance(r[0].value, ast.Attribute) and "delta" not in r[0].value.attr)), "FORMULA", md, f"BCH advertised distance: {unparse(r[0].value) if r else '?'}", "the design distance (BCH bound: true d >= delta)", "BCH advertises something other than its design distance" + (": the parent's value is the weight of the generator polynomial for k > 12 - an UPPER bound on the distance - so e.g. BCH(31,21) reports 7 where the true distance is 5" if uses_parent else ""))
     n += 1
     gp = repo.func(BCH, "compute_bch_generator_polynomial")
+    if any(isinstance(c_, ast.Call) and isinstance(c_.func, ast.Attribute) and c_.func.attr == "lcm" for c_ in ast.walk(gp.node)):
+        # the generator is accumulated with BinaryPolynomial.lcm: it has every root alpha^1 .. alpha^(delta-1) only if that is the lcm
+        from .c18 import lcm_tabulated
+
+        lfi = repo.func("kaira/models/fec/algebra.py", "BinaryPolynomial.lcm")
+        lst_, ld_ = lcm_tabulated(lfi)
+        if lst_ in (OK, VIOLATION):
+            rep.add("FORMULA", lfi, "BCH generator = lcm of the minimal polynomials: BinaryPolynomial.lcm tabulated against a*b / gcd(a,b)", lst_, ld_ + ("" if lst_ == OK else " - the BCH generator polynomial then lacks some of the roots alpha^1 .. alpha^(delta-1), and the design distance is not guaranteed"), node=lfi.node)
+            n += 1
     loops = [s_ for s_ in stmts_of(gp.body) if isinstance(s_, ast.For)]
     body = [unparse(s_) for s_ in stmts_of(gp.body)]
     root_loops = [l for l in loops if any("minimal_polynomial()" in unparse(x) for x in l.body)]
